@@ -98,6 +98,8 @@ def check_returned_rules(db, rules):
         ti = _t(src.forest_key(lab, db.classdb.is_empty))
         if known_history and ti not in inserted:
             cx.violation("C11:returned-rule-never-inserted", f"{type(r).__name__} with key {ti} was never inserted", wit)
+    if root not in parents and db.classdb.is_empty(db.classdb.get_class(root), root):
+        empties.add(root)  # an empty start class: no rule is handed back, the specification adds it
     triples += [(e, (), ()) for e in empties if e not in parents]
     if len(set(parents)) != len(parents):
         cx.violation("C11:returned-two-rules-for-one-class", f"parents {sorted(parents)}", wit)
